@@ -531,7 +531,9 @@ Definition check_seq (c : seq_case) : list bool :=
 (* ---------------------------------------------------------------------------------------- *)
 (* 8. rules that modify the graph they are given                                             *)
 (* ---------------------------------------------------------------------------------------- *)
-(* state of the verified graph object: its structure and "some node was renamed by a rule" *)
+(* state of the verified graph object: its structure and "it has nodes and they carry the name
+   given by a renaming rule" (a renaming rule renames every node; what the harness observes is
+   whether a node of the graph carries that name, so the mark ends when the last node goes) *)
 Definition gstate := (dg * bool)%type.
 
 (* nodes.remove(last) after removing `last` from every parent list *)
@@ -543,7 +545,7 @@ Definition cut_first (g : dg) : dg := match g with [] => [] | _ :: r => [] :: r 
 
 Definition mutate (m : mutation) (s : gstate) : gstate :=
   match m with
-  | MDropLast => (drop_last (fst s), snd s)
+  | MDropLast => let g' := drop_last (fst s) in (g', snd s && negb (is_nil g'))
   | MCutFirst => (cut_first (fst s), snd s)
   | MRename => (fst s, match fst s with [] => snd s | _ => true end)
   end.
